@@ -209,7 +209,7 @@ func Run(o *core.Options) int {
 	if o.Replay != "" {
 		return replay(o, r)
 	}
-	limit := 96
+	limit := 64
 	if o.Thorough() {
 		limit = 0
 	}
@@ -266,7 +266,7 @@ func Run(o *core.Options) int {
 	// leftover sub-sweep: one stored tuple invalid for M (written under the permissive model) + |T|<=1
 	lm := models
 	if !o.Thorough() {
-		lm = kit.Thin(models, 32)
+		lm = kit.Thin(models, 8)
 	}
 	r.Set("models_leftover_subsweep", len(lm))
 	kit.Sweep(r, lm, kit.SweepOpts{K: 1, ServerOpts: so, Leftover: true}, func(env *e2.Env, w *ref.World) {
